@@ -61,7 +61,7 @@ theorem headerStep_index_git (st : HState) (x : Bytes) (strip : Int) (hg : st.is
     headerStep st (str "index " ++ x) strip = .ok ({ entered st with ltfh := st.lines + 2 }, true) := by
   have hd : (str "index " ++ x).head? = some 105 := by rw [str_index_lc]; rfl
   rw [headerStep_tail st _ strip (noKeyword_index x)
-    (not_firstBodyLine_of_head (by rw [hd]; decide) (by rw [hd]; decide) (by rw [hd]; decide))]
+    (not_firstBodyLine_of_head (by rw [hd]; decide) (by rw [hd]; decide) (by rw [hd]; decide) (by rw [hd]; decide))]
   unfold Cost.hdrTail
   simp only [hg, if_true, gitExt_index]
 
@@ -539,7 +539,7 @@ theorem headerStep_similarity_git (st : HState) (x : Bytes) (strip : Int) (hg : 
   have hat : startsWith (str "similarity index " ++ x) "@@ -" = false :=
     startsWith_false_of_head _ _ _ _ Unified.str_atat_minus (by rw [hd]; decide)
   rw [headerStep_tail _ _ strip (noKeyword_similarity x)
-    (not_firstBodyLine_of_head (by rw [hd]; decide) (by rw [hd]; decide) (by rw [hd]; decide))]
+    (not_firstBodyLine_of_head (by rw [hd]; decide) (by rw [hd]; decide) (by rw [hd]; decide) (by rw [hd]; decide))]
   unfold Cost.hdrTail Cost.hdrUnified Cost.hdrNormal Cost.hdrContext
   simp only [if_true, gitExt_of_head _ _ _ (by rw [hd]; decide) (by rw [hd]; decide) (by rw [hd]; decide)
     (by rw [hd]; decide) (by rw [hd]; decide) (by rw [hd]; decide) (by rw [hd]; decide), hf, parseUnifiedRange_none _ _ hat,
@@ -574,7 +574,7 @@ theorem headerStep_ext_git (st : HState) (l : Bytes) (strip : Int) (p' : Patch) 
     (hh : l.head? = some 114) (hx : parseGitExtendedInfo l st.patch strip = .ok (true, p')) :
     headerStep st l strip = .ok ({ entered st with patch := p', ltfh := st.lines + 2 }, true) := by
   rw [headerStep_tail st _ strip (by apply noKeyword_of_head <;> rw [hh] <;> decide)
-    (not_firstBodyLine_of_head (by rw [hh]; decide) (by rw [hh]; decide) (by rw [hh]; decide))]
+    (not_firstBodyLine_of_head (by rw [hh]; decide) (by rw [hh]; decide) (by rw [hh]; decide) (by rw [hh]; decide))]
   unfold Cost.hdrTail
   simp only [hg, if_true]
   rw [show (entered st).patch = st.patch from rfl, hx]
@@ -706,10 +706,12 @@ theorem applyPatch_nohunks (file : List Line) (p0 : Patch) (o : ApplyOpts) (tty 
   simp only [hr, Bool.false_eq_true, if_false, hh]
   rfl
 
-theorem render_copy_all (mode : NewlineOutput) (file : List Line) :
-    render mode ([] ++ copyRange file 0 (file.length - 0)) = renderLines mode file := by
-  unfold render
-  rw [List.nil_append, Render.copyRange_map_line, List.drop_zero, Nat.sub_zero, List.take_length]
+/-- (`hfile`: only the last line of the file may lack its newline — true of the lines of every file as read,
+    `Render.linesTerminated_splitLines` —, needed since the writer puts a newline behind any other such line: D97) -/
+theorem render_copy_all (mode : NewlineOutput) (file : List Line) (hfile : Render.LinesTerminated file) :
+    render mode ([] ++ copyRange file 0 (file.length - 0)) = renderLines mode file :=
+  Render.render_of_map_line mode
+    (by rw [List.nil_append, Render.copyRange_map_line, List.drop_zero, Nat.sub_zero, List.take_length]) hfile
 
 /-! ### queries about a path where nothing is -/
 
